@@ -33,9 +33,9 @@ P_FLOOR = 1e-9 / 1000.0
 
 # ------------------------------------------------------------------ configuration strategy
 @st.composite
-def law_configs(draw, classes=("metropolis", "gibbs", "pca", "hmc", "ensemble")):
+def law_configs(draw, classes=("metropolis", "gibbs", "pca", "hmc", "ensemble"), min_d=1):
     cls = draw(st.sampled_from(list(classes)))
-    d = draw(st.integers(2 if cls == "pca" else 1, 3 if cls in ("hmc", "ensemble") else 4))
+    d = draw(st.integers(max(min_d, 2 if cls == "pca" else 1), 3 if cls == "hmc" else 4))
     flavour = draw(st.sampled_from(["gauss", "gauss", "gauss", "box", "nonneg", "cells"]))
     if cls in ("hmc",) and flavour in ("cells", "nonneg"):
         flavour = "gauss"
@@ -560,7 +560,7 @@ def body_decisions(case, ctx):
 
 @st.composite
 def ensemble_decision_configs(draw):
-    cfg = draw(law_configs(classes=("ensemble",)))
+    cfg = draw(law_configs(classes=("ensemble",), min_d=2))      # the partner walker is identified by collinearity: needs d >= 2
     cfg["flavour"] = "gauss"
     cfg.pop("box_abs", None)
     if cfg["target"]["kind"] != "gauss":
@@ -568,6 +568,8 @@ def ensemble_decision_configs(draw):
         cfg["target"] = {"kind": "gauss", "d": d, "mean": [0.0] * d, "chol": [[1.0 if i == j else 0.0 for j in range(d)] for i in range(d)]}
     cfg["iterations"] = draw(st.integers(3, 25))
     cfg["spread"] = draw(st.sampled_from([1.0, 1.0, 3.0, 0.3]))
+    # the public attempt limit: small values make "every attempt rejected" (the walker keeps its position) frequent
+    cfg["max_attempts"] = draw(st.sampled_from([None, None, 1, 2, 3, 5]))
     return cfg
 
 
@@ -587,9 +589,11 @@ def body_ensemble_decisions(case, ctx):
         ch = make_sampler(cfg, None, tgt, positions=pos.copy())
     except ValueError:
         raise Inconclusive("degenerate walker configuration")
+    M = cfg.get("max_attempts") or int(ch.max_attempts)
+    ch.max_attempts = M
     cur = pos.copy()
     uncertain = []
-    n_acc = n_rej = 0
+    n_acc = n_rej = n_failed = 0
     for it in range(cfg["iterations"]):
         mark = len(tgt.trace)
         with np.errstate(all="ignore"):
@@ -600,6 +604,7 @@ def body_ensemble_decisions(case, ctx):
         for i in range(nw):
             moved = not np.array_equal(new[i], cur[i])
             L_i = tgt.logp(cur[i])
+            att = 0
             while True:
                 if k >= len(tr):
                     if moved:
@@ -607,6 +612,7 @@ def body_ensemble_decisions(case, ctx):
                     break
                 Y, L_Y = tr[k]
                 k += 1
+                att += 1
                 acc = moved and np.array_equal(Y, new[i])
                 best = None
                 for j in range(nw):
@@ -635,12 +641,12 @@ def body_ensemble_decisions(case, ctx):
                 if acc:
                     cur[i] = new[i]
                     break
-                if not moved and k >= len(tr):
+                if att >= M:
+                    # every one of the walker's max_attempts proposals was rejected: it keeps its position for this iteration
+                    if moved:
+                        raise Violation("decisions:ensemble:moved-without-acceptance", f"walker {i} moved to {new[i]} although none of its {M} evaluated proposals is that point")
+                    n_failed += 1
                     break
-                if not moved and i + 1 < nw:
-                    # a walker that failed every attempt: its attempts end where the next walker's begin; with max_attempts = 100
-                    # this is rare and cannot be delimited from outside
-                    raise Inconclusive("a walker exhausted its attempts")
         if k != len(tr):
             raise Inconclusive("trace not fully explained")
     if len(uncertain) >= 5:
@@ -657,6 +663,9 @@ def body_ensemble_decisions(case, ctx):
     ctx.nontrivial(n_acc >= 1 and n_rej >= 1)
     ctx.event(f"d={d}")
     ctx.event(f"alpha={alpha}")
+    ctx.event(f"max_attempts={M}")
+    if n_failed:
+        ctx.event("walker-updates-with-every-attempt-rejected")
 
 
 @st.composite
